@@ -409,6 +409,9 @@ pub fn c18(tier: Tier, seed: u64) -> i32 {
             rep.total_violations += 1;
         }
     }
+    if tier == Tier::Thorough && std::env::var("PLV_NO_MIRI").is_err() {
+        miri_codec(&mut rep);
+    }
     if tier == Tier::Thorough && std::env::var("PLV_NO_FUZZ").is_err() {
         crate::fuzz::run(&mut rep, budget(tier, 0, 300), ncpu().min(16));
     }
@@ -892,4 +895,124 @@ pub fn c09(tier: Tier, seed: u64) -> i32 {
 #[allow(dead_code)]
 fn unused() {
     let _ = observe;
+}
+
+// ---------------------------------------------------------------------------------------------
+// `mini-codec`: a small batch of round-trips and mutants, meant to run under Miri (UB detection on
+// the parser / printer paths, e.g. an `unsafe` shortcut introduced into a scanner)
+// ---------------------------------------------------------------------------------------------
+
+pub fn mini_codec(seed: u64, n: usize) -> i32 {
+    let mut rng = Rng::derive(seed ^ 0x3c0d, 1);
+    let mut st = RtStats::default();
+    codec::text_batch(&mut rng, false, n, &mut st);
+    codec::json_batch(&mut rng, false, n, &mut st);
+    let mut parses = 0u64;
+    let mut panics: Vec<String> = Vec::new();
+    let alpha = ['é', '€', ';', '=', ':', '[', ']', ',', '0', '😀', '\0'];
+    let mut seeds = codec::seeds_text(&mut rng, 1);
+    seeds.extend(codec::seeds_json(&mut rng, 1));
+    let entries: Vec<(&'static str, ParseFn)> = codec::text_entries().into_iter().chain(codec::json_entries()).collect();
+    for (entry, enc) in seeds.iter() {
+        let f = match entries.iter().find(|(n, _)| n == entry) {
+            Some(x) => x.1,
+            None => continue,
+        };
+        // a thin sample of the single-fault space (Miri is ~10^4 x slower than native)
+        let chars: Vec<(usize, char)> = enc.char_indices().collect();
+        for _ in 0..(3 * n).max(3) {
+            if chars.is_empty() {
+                break;
+            }
+            let (i, c) = chars[rng.usize_below(chars.len())];
+            let a = *rng.pick(&alpha);
+            let m = match rng.below(3) {
+                0 => format!("{}{}", &enc[..i], &enc[i + c.len_utf8()..]),
+                1 => format!("{}{}{}", &enc[..i], a, &enc[i + c.len_utf8()..]),
+                _ => format!("{}{}{}", &enc[..i], a, &enc[i..]),
+            };
+            parses += 1;
+            if let Err(p) = crate::hook::quiet_catch(|| f(&m)) {
+                panics.push(format!("{} panicked on {:?}: {}", entry, m, crate::sched::panic_message(&*p)));
+            }
+        }
+    }
+    for d in codec::dictionary().iter().filter(|d| d.len() < 200) {
+        for (name, f) in entries.iter() {
+            parses += 1;
+            if let Err(p) = crate::hook::quiet_catch(|| f(d)) {
+                panics.push(format!("{} panicked on {:?}: {}", name, d, crate::sched::panic_message(&*p)));
+            }
+        }
+    }
+    println!("MINI-CODEC round_trips={} parses={} failures={} panics={}", st.total, parses, st.failures.len(), panics.len());
+    for (n, w) in st.failures.iter().take(5) {
+        println!("MINI-CODEC-VIOLATION round-trip {}: {}", n, w);
+    }
+    for p in panics.iter().take(5) {
+        println!("MINI-CODEC-VIOLATION {}", p);
+    }
+    if st.failures.is_empty() && panics.is_empty() {
+        0
+    } else {
+        1
+    }
+}
+
+/// thorough tier of C18: the batch above under Miri
+pub fn miri_codec(rep: &mut Report) {
+    use std::process::Command;
+    let dir = format!("{}/harness", crate::report::verif_dir());
+    let t0 = Instant::now();
+    let out = Command::new("cargo")
+        .current_dir(&dir)
+        .env("MIRIFLAGS", "-Zmiri-disable-isolation -Zmiri-many-seeds=0..4")
+        .env("CARGO_NET_OFFLINE", "true")
+        .args(["+nightly", "miri", "run", "--offline", "--", "mini-codec"])
+        .arg(rep.seed.to_string())
+        .arg("2")
+        .output();
+    let out = match out {
+        Ok(o) => o,
+        Err(e) => {
+            rep.inconclusive(format!("Miri codec batch could not be started: {}", e));
+            return;
+        }
+    };
+    let so = String::from_utf8_lossy(&out.stdout).to_string();
+    let se = String::from_utf8_lossy(&out.stderr).to_string();
+    let runs = so.lines().filter(|l| l.starts_with("MINI-CODEC round_trips")).count();
+    let parses: u64 = so
+        .lines()
+        .filter(|l| l.starts_with("MINI-CODEC round_trips"))
+        .filter_map(|l| l.split("parses=").nth(1).and_then(|x| x.split_whitespace().next()).and_then(|x| x.parse::<u64>().ok()))
+        .sum();
+    rep.add("miri_codec_runs", runs as u64);
+    rep.add("miri_codec_parses", parses);
+    rep.set("miri_codec_wall_s", json!(t0.elapsed().as_secs()));
+    let mut reported = false;
+    if se.contains("Undefined Behavior") {
+        let at = se.find("Undefined Behavior").unwrap_or(0);
+        let mut a = at.saturating_sub(200);
+        while !se.is_char_boundary(a) {
+            a += 1;
+        }
+        let mut b = (at + 1500).min(se.len());
+        while !se.is_char_boundary(b) {
+            b -= 1;
+        }
+        rep.violation(
+            "Miri reported undefined behaviour on a parser / printer path".into(),
+            json!({"engine": "miri-codec", "diagnostic": &se[a..b]}),
+        );
+        reported = true;
+    }
+    for l in so.lines().filter(|l| l.starts_with("MINI-CODEC-VIOLATION")).take(3) {
+        rep.violation(format!("under Miri: {}", &l[..l.len().min(500)]), json!({"engine": "miri-codec", "line": l}));
+        reported = true;
+    }
+    if !reported && (!out.status.success() || runs == 0) {
+        let tail: String = se.lines().rev().take(8).collect::<Vec<_>>().into_iter().rev().collect::<Vec<_>>().join(" | ");
+        rep.inconclusive(format!("Miri codec batch ended with {:?} without a verdict: {}", out.status.code(), &tail[..tail.len().min(500)]));
+    }
 }
